@@ -7,8 +7,9 @@
      complete comments in front of the point where the lexer starts a token changes nothing.
    - layout, second half (layout_between_tokens): at every point the lexer reaches between two tokens, inserting a gap that
      begins with a whitespace character changes nothing, neither for the tokens before that point nor for those after.
-   Not covered by a theorem: gaps that begin with a comment directly after a token (e.g. '/' followed by '//' would fuse), the
-   end of the file, and the claim about the compiled output (a corollary through the parser, which reads types and
+   - the rest (LexRest.v, second half of this file): gaps that begin with a comment directly after a token (allowed unless
+     '/' meets '//'), the end of the file (trailing layout, unterminated last comment), end positions of string tokens.
+   Not covered by a theorem: the claim about the compiled output (a corollary through the parser, which reads types and
    literals only: decided by the correspondence under PROJ text and the `layout` oracle). *)
 From Coq Require Import List String ZArith NArith Bool.
 Open Scope string_scope. Open Scope list_scope.
@@ -81,3 +82,87 @@ Theorem between_premise_example :
   reaches (fun _ => false) (fun _ => false) (fun _ => false) (t "(c") 1 (init (t "ab" ++ t "(c")).
 Proof. exact reaches_example. Qed.
 Print Assumptions between_premise_example.
+
+(* ---- the rest (LexRest.v): (1) a gap that starts with a comment directly after a token - any gap may be inserted at a token
+   boundary unless the text before ends with '/' and the gap begins with '/' (then "//" starts one character earlier:
+   comment_gap_counterexample); (2) the end of the file: trailing whitespace and comments, the last comment possibly
+   not closed by a newline, give no token before EOF; a file of layout only is EOF; (3) end positions of STRING tokens:
+   line, byte column and character column of the position behind the closing quote of the last part. ---- *)
+
+From Pory Require Import LexRest. Open Scope list_scope.
+Theorem layout_between_tokens_any_gap :
+  forall (is_letter_hi is_digit_hi is_space_hi : N -> bool) (p r g : list N) (k : nat),
+  r <> [] ->
+  gap g ->
+  ~ fuses p g ->
+  reaches is_letter_hi is_digit_hi is_space_hi r k (init (p ++ r)) ->
+  map shape (lex is_letter_hi is_digit_hi is_space_hi (p ++ g ++ r)) = map shape (lex is_letter_hi is_digit_hi is_space_hi (p ++ r)).
+Proof. exact LexRest.layout_between_tokens_any_gap. Qed.
+Print Assumptions layout_between_tokens_any_gap.
+
+Theorem trailing_layout_then_eof :
+  forall (is_letter_hi is_digit_hi is_space_hi : N -> bool) (p r g : list N) (k : nat) (ts : list token) (lo' : lx),
+  r <> [] ->
+  runs is_letter_hi is_digit_hi is_space_hi k (init (p ++ r)) ts lo' ->
+  chs lo' = r -> tgap g -> ~ fuses p g -> map shape (lex is_letter_hi is_digit_hi is_space_hi (p ++ g)) = map shape ts ++ [(EOF, [])].
+Proof. exact LexRest.trailing_layout_then_eof. Qed.
+Print Assumptions trailing_layout_then_eof.
+
+Theorem trailing_layout_is_ignored :
+  forall (is_letter_hi is_digit_hi is_space_hi : N -> bool) (p r g : list N) (k : nat),
+  r <> [] ->
+  reaches is_letter_hi is_digit_hi is_space_hi r k (init (p ++ r)) ->
+  tgap g ->
+  ~ fuses p g -> map shape (lex is_letter_hi is_digit_hi is_space_hi (p ++ g)) = map shape (lex is_letter_hi is_digit_hi is_space_hi p).
+Proof. exact LexRest.trailing_layout_is_ignored. Qed.
+Print Assumptions trailing_layout_is_ignored.
+
+Theorem only_layout_is_eof :
+  forall (is_letter_hi is_digit_hi is_space_hi : N -> bool) (g : list N),
+  tgap g -> map shape (lex is_letter_hi is_digit_hi is_space_hi g) = [(EOF, [])].
+Proof. exact LexRest.only_layout_is_eof. Qed.
+Print Assumptions only_layout_is_eof.
+
+Theorem comment_gap_counterexample :
+  reaches no_hi no_hi no_hi (t "a") 1 (init (t "/" ++ t "a")) /\
+  gap (47%N :: 47%N :: [120%N] ++ [10%N]) /\
+  map shape (lex no_hi no_hi no_hi (t "/" ++ (47%N :: 47%N :: [120%N] ++ [10%N]) ++ t "a")) = [(IDENT, t "a"); (EOF, [])] /\
+  map shape (lex no_hi no_hi no_hi (t "/" ++ t "a")) = [(ILLEGAL, t "/"); (IDENT, t "a"); (EOF, [])].
+Proof. exact LexRest.comment_gap_counterexample. Qed.
+Print Assumptions comment_gap_counterexample.
+
+Theorem string_tokens_end_located :
+  forall (is_letter_hi is_digit_hi is_space_hi : N -> bool) (s : text),
+  Forall (fun tk : token => ttype tk = STRING -> string_ends s tk) (lex is_letter_hi is_digit_hi is_space_hi s).
+Proof. exact LexRest.string_tokens_end_located. Qed.
+Print Assumptions string_tokens_end_located.
+
+Theorem string_token_end_of_parts :
+  forall (hl hd hs : N -> bool) (s pre : list N) (ps : list (list N * list N)) (b g r : list N) (k : nat) (ts : list token) (l : lx),
+  s = pre ++ TextLex.src_parts (ps ++ [(b, g)]) ++ r ->
+  runs hl hd hs k (init s) ts l ->
+  chs (skipall l) = TextLex.src_parts (ps ++ [(b, g)]) ++ r ->
+  Forall TextLex.part_ok (ps ++ [(b, g)]) ->
+  TextLex.no_quote r ->
+  exists (tk : token) (l' : lx),
+    next_token_aux hl hd hs l = ([tk], l', false) /\
+    ttype tk = STRING /\
+    (tline tk, tsb tk, tsu tk) = endpos pre /\ (teline tk, teb tk, teu tk) = endpos (pre ++ TextLex.src_parts ps ++ 34%N :: b ++ [34%N]).
+Proof. exact LexRest.string_token_end_of_parts. Qed.
+Print Assumptions string_token_end_of_parts.
+
+Theorem one_line_string_end :
+  forall (hl hd hs : N -> bool) (s pre b g r : list N) (k : nat) (ts : list token) (l : lx),
+  s = pre ++ (34%N :: b ++ 34%N :: g) ++ r ->
+  runs hl hd hs k (init s) ts l ->
+  chs (skipall l) = (34%N :: b ++ 34%N :: g) ++ r ->
+  TextLex.body_ok b ->
+  Forall (fun c : N => c <> 10%N) b ->
+  gap g ->
+  TextLex.no_quote r ->
+  exists (tk : token) (l' : lx),
+    next_token_aux hl hd hs l = ([tk], l', false) /\
+    ttype tk = STRING /\ teline tk = tline tk /\ teb tk = tsb tk + bytes b + 2 /\ teu tk = tsu tk + Z.of_nat (Datatypes.length b) + 2.
+Proof. exact LexRest.one_line_string_end. Qed.
+Print Assumptions one_line_string_end.
+
